@@ -171,7 +171,7 @@ const PROBES: &[&str] = &[
     "(8 / 4) / 2",
 ];
 
-const CONTEXTS: &[&str] = &["empty", "nf-function", "nf-variable", "min-function"];
+const CONTEXTS: &[&str] = &["empty", "nf-function", "nf-variable", "min-function", "nf-failing-function"];
 
 fn engine_ctx(kind: &str) -> Context {
     let mut c = Context::new();
@@ -179,6 +179,8 @@ fn engine_ctx(kind: &str) -> Context {
         "nf-function" => c.set_func("nf", Arc::new(|a| Ok(Value::String(format!("ctx-nf({})", a.len()))))),
         "nf-variable" => c.set_variable("nf", Value::Number(Decimal::from(5))),
         "min-function" => c.set_func("min", Arc::new(|a| Ok(Value::String(format!("ctx-min({})", a.len()))))),
+        // a context function that fails: the call fails, the global function of that name is not a fall-back
+        "nf-failing-function" => c.set_func("nf", Arc::new(|_| Value::None.bool().map(Value::from))),
         _ => {}
     }
     c
@@ -197,6 +199,10 @@ fn model_ctx(kind: &str) -> MCtx {
         "min-function" => {
             let h: HFn = Arc::new(|a| Ok(Value::String(format!("ctx-min({})", a.len()))));
             c.insert("min".into(), MBind::Func(h));
+        }
+        "nf-failing-function" => {
+            let h: HFn = Arc::new(|_| Err(eval::EErr::Handler));
+            c.insert("nf".into(), MBind::Func(h));
         }
         _ => {}
     }
